@@ -88,8 +88,8 @@ class Reject(Exception):
 # =====================================================================================
 # IR -> template text + section table
 # =====================================================================================
-SIG_DECL = {"": "", "a": "a", "ab": "a, b='k'", "star": "*args, **kw", "kwo": "a, *rest, b='k'"}
-SIG_SCOPE = {"": [], "a": ["a"], "ab": ["a", "b"], "star": ["args[0]", "kw['b']"], "kwo": ["a", "b", "str(len(rest))"]}
+SIG_DECL = {"": "", "a": "a", "ab": "a, b='k'", "star": "*args, **kw", "kwo": "a, *rest, b='k'", "kwr": "a, *rest, b", "pos": "a, /, b='k'"}
+SIG_SCOPE = {"": [], "a": ["a"], "ab": ["a", "b"], "star": ["args[0]", "kw['b']"], "kwo": ["a", "b", "str(len(rest))"], "kwr": ["a", "b", "str(len(rest))"], "pos": ["a", "b"]}
 
 
 def _argtext(a):
@@ -298,6 +298,12 @@ def case_strategy(backends):
         if sig == "ab":
             kw = {"b": argexpr(draw, scope)} if draw(st.booleans()) else {}
             return ["call", name, [argexpr(draw, scope)], kw]
+        if sig == "kwr":
+            extra = [argexpr(draw, scope) for _ in range(draw(st.integers(0, 2)))]
+            return ["call", name, [argexpr(draw, scope)] + extra, {"b": argexpr(draw, scope)}]
+        if sig == "pos":
+            second = [argexpr(draw, scope)] if draw(st.booleans()) else []
+            return ["call", name, [argexpr(draw, scope)] + second, {}]
         if sig == "kwo":
             # a keyword-only parameter with a default behind *rest, given a value of its own or not
             extra = [argexpr(draw, scope) for _ in range(draw(st.integers(0, 2)))]
@@ -321,7 +327,7 @@ def case_strategy(backends):
         return parts
 
     def gen_section(draw, backend, kind, name, env, ctr, tid):
-        sig = draw(st.sampled_from(["", "a", "a", "ab", "star", "kwo"])) if kind in ("def", "ndef") else ""
+        sig = draw(st.sampled_from(["", "a", "a", "ab", "star", "kwo", "kwr", "pos"])) if kind in ("def", "ndef") else ""
         cached = draw(st.sampled_from([True, True, False]))
         own = SIG_SCOPE[sig]
         if kind in ("def", "block"):
@@ -635,7 +641,13 @@ class Machine:
             kw["cache_impl"] = "vf17recctx"
         elif self.backend == "dogpile":
             kw["cache_impl"] = "dogpile.cache"
-        t = Template(rec["text"].replace("$TMP", self.tmp), **kw)
+        try:
+            t = Template(rec["text"].replace("$TMP", self.tmp), **kw)
+        except Exception as e:  # noqa: BLE001
+            # (every generated template compiles; the same text without the cached="True" flags is ordinary defs and blocks)
+            raise Failure({"backend": self.backend, "templates": self.case["templates"], "ops": []},
+                          "[%s] the template does not compile (%s: %s): %s" % (self.backend, type(e).__name__, e, rec["text"][:700]),
+                          "template-construct-raised:" + type(e).__name__)
         t._vf_store = {} if ref else self.shared_store
         t._vf_log = log
         return t
